@@ -100,7 +100,7 @@ func (m *Middleware) Wrap(handler dnsserver.Handler) (wrapped dnsserver.Handler)
 			return nil
 		}
 
-		err = m.set(resp)
+		err = m.set(req, resp)
 		m.metrics.OnCacheItemAdded(ctx, resp, m.cache.Len(false))
 		if err != nil {
 			return fmt.Errorf("adding cache item: %w", err)
@@ -137,9 +137,9 @@ func (m *Middleware) get(req *dns.Msg) (resp *dns.Msg, found bool) {
 	return m.fromCacheItem(item, req), true
 }
 
-// set saves msg to the cache if it's cacheable.  If msg cannot be cached, it is
-// ignored.
-func (m *Middleware) set(msg *dns.Msg) (err error) {
+// set saves msg, which is a response to req, to the cache if it's cacheable.
+// If msg cannot be cached, it is ignored.
+func (m *Middleware) set(req, msg *dns.Msg) (err error) {
 	if m == nil {
 		return nil
 	}
@@ -155,7 +155,10 @@ func (m *Middleware) set(msg *dns.Msg) (err error) {
 		setMinTTL(msg, uint32(exp.Seconds()))
 	}
 
-	key := toCacheKey(msg)
+	// Use the request and not the response to make sure that the key is the
+	// same as the one used in [Middleware.get], since the upstream may not set
+	// the OPT record in its response the same way.
+	key := toCacheKey(req)
 	i := m.toCacheItem(msg)
 
 	return m.cache.SetWithExpire(key, i, exp)
